@@ -558,12 +558,18 @@ class MetadataManager:
             return None
         if not text:
             return None
-        if text.isdigit():
-            # Legacy format: plain version number -> legacy filename
-            return int(text), f"v{text}.metadata.json"
-        m = _METADATA_FILE_RE.match(text)
-        if m:
-            return int(m.group(1)), text
+        # str.isdigit() and \d accept characters int() rejects (e.g. U+00B2), and
+        # int() refuses digit strings beyond its conversion limit: an unparseable
+        # hint must read as "no hint" (recovery takes over), never raise.
+        try:
+            if text.isdigit():
+                # Legacy format: plain version number -> legacy filename
+                return int(text), f"v{text}.metadata.json"
+            m = _METADATA_FILE_RE.match(text)
+            if m:
+                return int(m.group(1)), text
+        except ValueError:
+            return None
         return None
 
     def _read_version_hint(self) -> Optional[Tuple[int, str]]:
